@@ -591,9 +591,13 @@ def cmd_check(cid: str, tier: str) -> int:
     if getattr(mod, "EXHAUSTIVE_NOTE", None):
         ev["coverage"]["enumeration_note"] = mod.EXHAUSTIVE_NOTE
     err = validate_evidence(ev)
-    if err:
+    if err and not new_violations:
         print(f"HARNESS-ERROR property={cid} evidence invalid: {err}")
         return 2
+    if err:
+        # violations were found and reported above: thin coverage (e.g. every run stopped at its first violation)
+        # must not turn exit 1 into a harness error
+        print(f"  note: coverage is thin on this tree ({err}); the violations above stand")
     if not os.environ.get("VERIF_NO_EVIDENCE"):
         os.makedirs(EVIDENCE_DIR, exist_ok=True)
         with open(os.path.join(EVIDENCE_DIR, f"{cid}.json"), "w", encoding="utf-8") as fh:
